@@ -78,7 +78,7 @@ def shape(r, depth=6):
         return "p"
     if k in ("vec", "mat"):
         return k
-    if k in ("arr", "lst", "arr2", "sym"):
+    if k in ("arr", "lst", "arr2", "lst2", "sym"):
         return k
     if depth <= 0:
         return k
@@ -270,6 +270,28 @@ def vec_nodes(n=3, full=True):
             ("dot", ("mcol", M, 0), ("mdiag", M)),
             ("vsum", ("Mmatvec", M, ("slice", v, 0, 2, None))) if n >= 2 else ("vsum", v),
             ("melem", ("mbin", "+", M, ("arr2", [[1.0, 2.0], [3.0, ("sym", "c")]])), 1, 1),
+        ]
+        # sub-matrix views of a SYMMETRIC matrix (shared entries: principal block, off-diagonal block,
+        # whole-span slice, reversed axis, transposes of those)
+        T3 = ("mat", "T", 3, 3, True)
+        al = (None, None, None)
+        out += [
+            ("msum", ("mslice", T3, (0, 2, None), (0, 2, None))),
+            ("msum", ("mslice", T3, (0, 2, None), (1, 3, None))),
+            ("fro", ("mslice", T3, (0, 2, None), (1, 3, None))),
+            ("fro", ("mslice", T3, al, al)),
+            ("msum", ("mT", ("mslice", T3, (None, None, -1), al))),
+            ("msum", ("mbin", "*", ("mslice", T3, (None, None, -1), al), ("mT", ("mslice", T3, (None, None, -1), al)))),
+            ("msum", ("mbin", "*", ("mslice", T3, (1, 3, None), (0, 2, None)), ("arr2", [[1.0, 2.0], [3.0, ("sym", "c")]]))),
+            ("vsum", ("mrow", ("mT", ("mslice", T3, al, (None, None, -1))), 0)),
+            # x.dot(Q @ y) where x and y are different views that PRINT alike (quadratic-form pattern match)
+            ("dot", ("slice", v, 0, n, None), ("matvec", [[(("sym", "a11") if (i, j) == (1, 1) else float(((i * 2 + j * 3) % 5) - 2)) for j in range(n)] for i in range(n)], ("slice", v, None, None, -1))),
+            ("dot", ("mrowpart", ("mat", "R", 1, 4), 0, (0, 2, None)), ("matvec", [[1.0, 2.0], [("sym", "a11"), 4.0]], ("mrowpart", ("mat", "R", 1, 4), 0, (2, 4, None)))),
+            # Python lists on the LEFT of matrix / vector operators
+            ("msum", ("mrbin", "/", ("lst2", [[1.0, 2.0], [3.0, ("sym", "c")]]), M)),
+            ("msum", ("mrbin", "*", ("lst2", [[1.0, 2.0], [3.0, ("sym", "c")]]), ("mbin", "+", M, ("sc", 2.0)))),
+            ("vsum", ("vrbin", "/", ("lst", cs), v)),
+            ("vsum", ("vrbin", "-", ("lst", cs), ("vbin", "*", v, ("sc", 2.0)))),
         ]
         for op in R.VEC_UNARY:
             out.append(("vsum", ("vun", op, v)))
